@@ -121,7 +121,10 @@ def run(ctx):
         cand = [g[:8] for g in pool.values() if len(g) >= 4]
         ctx.rng.shuffle(cand)
         stress += cand[:n_stress]
-    if len(stress) < 2:
+    if ctx.replay:
+        # re-execute the recorded cases concurrently too: every selector list of the replay, padded to 4 documents
+        stress = [(g * 4)[:max(4, min(8, len(g)))] for pool in (wgroups, groups) for g in pool.values()][:40]
+    elif len(stress) < 2:
         raise vlib.Infra("no groups for the concurrent-instances run")
     with open(stress_path, "w") as f:
         for g in stress:
